@@ -6,7 +6,7 @@
 1. git apply (3-way fallback) in /repo, gofmt check, go build with and without -tags verif
 2. baseline suite (tools/baseline.sh) must still match BASELINE stable_pass
 3. commit
-4. findings.d/<prop>.json: finding status -> fixed, "fixed: property=.. <commit> <what>" appended;
+4. known_findings.json: finding status -> fixed, "fixed: property=.. <commit> <what>" appended;
    replay witnesses whose expect is known:<id> -> expect pass
 5. ./check <prop> must exit 0 without a KNOWN-FINDING line for the fixed ids
 On failure at steps 1-2 the tree is restored.
@@ -67,23 +67,23 @@ def main():
     commit = sh("git rev-parse --short HEAD")[1].strip()
     print("committed", commit, files)
     props = set()
+    kp = os.path.join(V, "known_findings.json")
+    d = json.load(open(kp))
     for fid in a.f:
         prop = fid.split("-")[0]
         props.add(prop)
-        p = os.path.join(V, "findings.d", prop + ".json")
-        d = json.load(open(p))
         for f in d["findings"]:
             if f["id"] == fid:
                 f["status"] = "fixed"
                 f["fixed_by"] = commit
                 d.setdefault("fixed", []).append("fixed: property=%s %s %s: %s" % (prop, commit, fid, f["what"]))
-        json.dump(d, open(p, "w"), indent=1, ensure_ascii=False)
         for rp in glob.glob(os.path.join(V, "replay", prop, "*.json")):
             r = json.load(open(rp))
             if r.get("expect") == "known:" + fid:
                 r["expect"] = "pass"
                 r["note"] = (r.get("note", "") + " (was witness of %s, fixed by %s)" % (fid, commit)).strip()
                 json.dump(r, open(rp, "w"), indent=1, ensure_ascii=False)
+    json.dump(d, open(kp, "w"), indent=1, ensure_ascii=False)
     if not a.no_check:
         for prop in sorted(props):
             rc, o = sh("./check %s" % prop, cwd=V)
